@@ -497,6 +497,8 @@ idiff_strp(const char *str, char **on, size_t len)
 			/* nope */
 			goto out;
 		}
+		/* the break above only left the inner switch */
+		break;
 	default:
 		goto out;
 	}
